@@ -1,6 +1,6 @@
 (** C11 correspondence entries. *)
 From Coq Require Import String.
-From BV Require Import Base.Prelude Base.Codec Conc.Pipe Conc.Sched Conc.Status Conc.Known.
+From BV Require Import Base.Prelude Base.Codec Conc.Pipe Conc.Sched Conc.Status Conc.Known Conc.Kahn.
 
 (** ---- c11_sched: <C> then per stage: <S|I> <drop> <take|n> <emit 0/1> <srccount>
     Source data of stage i are the ids i*2^24 + [0..count). Output, for the producer-first, the
@@ -73,12 +73,13 @@ Definition entry_c11_sched (a : list str) : list str :=
   end.
 
 (** ---- c11_known: same arguments as c11_sched -> 1 iff the pipeline is in the class of the
-    known finding (a non-final inline stage emitting more than the capacity), then the counts *)
+    known finding (a non-final inline stage emitting more than the capacity), then the counts, then
+    the specified output [spec_out] (composition of the stream functions) as id ranges *)
 Definition entry_c11_known (a : list str) : list str :=
   match a with
   | c :: r =>
       let sgs := dec_stages (length r) 0%N r in
-      [enc_bool (known_class N (dec_nat c) sgs); show_nats (counts N 0%nat sgs)]
+      [enc_bool (known_class N (dec_nat c) sgs); show_nats (counts N 0%nat sgs); show_ranges (spec_out N sgs)]
   | [] => []
   end.
 
